@@ -27,9 +27,28 @@ var (
 	fcClock sync.Mutex
 )
 
-func failKey(q uint64) mcache.FailureQuestionKey {
-	return mcache.FailureQuestionKey{Question: dns.Question{Name: fmt.Sprintf("q%d.c16.example.", q), Qtype: dns.TypeA, Qclass: dns.ClassINET}}
+// failName: name i is nested below name i-1 (name 0 = c16.example.), so the
+// zone states of names 0..i are exactly the ancestor zones of name i.
+func failName(i uint64) string {
+	n := "c16.example."
+	for j := uint64(1); j <= i && j <= 40; j++ {
+		n = fmt.Sprintf("l%d.", j) + n
+	}
+	if i > 40 {
+		n = fmt.Sprintf("x%d.", i) + n
+	}
+	return n
 }
+
+func failKey(q uint64) mcache.FailureQuestionKey {
+	return mcache.FailureQuestionKey{Question: dns.Question{Name: failName(q), Qtype: dns.TypeA, Qclass: dns.ClassINET}}
+}
+
+func failZone(z uint64) mcache.FailureZoneKey {
+	return mcache.FailureZoneKey{Zone: failName(z), Qclass: dns.ClassINET}
+}
+
+var fcZRef = map[uint64][2]uint64{} // zone id -> (streak, retryAfter ns)
 
 // the oracle's own arithmetic: initial interval doubled per generation, capped
 func failOracleBackoff(streak uint64) uint64 {
@@ -60,6 +79,7 @@ func execFail(op string, a []string) vlib.Res {
 			return vlib.Res{Impl: "config-rejected", Oracle: "-"}
 		}
 		fcRef = map[uint64][2]uint64{}
+		fcZRef = map[uint64][2]uint64{}
 		return vlib.Res{Impl: "ok", Oracle: "ok"}
 	}
 	if fc == nil {
@@ -72,20 +92,27 @@ func execFail(op string, a []string) vlib.Res {
 	}
 	rel := func(t time.Time) uint64 { return uint64(t.Sub(fcBase)) }
 	lenOr := func(or string) string {
-		if or == "ok" && fc.Len() != len(fcRef) {
-			return fail("fail/"+op+"/miscounted", "Len()=%d, %d states recorded", fc.Len(), len(fcRef))
+		if or == "ok" && fc.Len() != len(fcRef)+len(fcZRef) {
+			return fail("fail/"+op+"/miscounted", "Len()=%d, %d states recorded", fc.Len(), len(fcRef)+len(fcZRef))
 		}
 		return or
 	}
 	switch op {
-	case "record":
+	case "record", "zrecord":
 		if !need(a, 2) {
 			break
 		}
 		q, now := vlib.AtoU64(a[0]), vlib.AtoU64(a[1])
 		setNow(now)
-		hit := fc.RecordQuestion(failKey(q), "c16", nil)
-		want, had := fcRef[q]
+		ref := fcRef
+		var hit mcache.FailureHit
+		if op == "record" {
+			hit = fc.RecordQuestion(failKey(q), "c16", nil)
+		} else {
+			ref = fcZRef
+			hit = fc.RecordZone(failZone(q), "c16", nil)
+		}
+		want, had := ref[q]
 		tags := ""
 		switch {
 		case !had:
@@ -99,23 +126,72 @@ func execFail(op string, a []string) vlib.Res {
 			want = [2]uint64{s, now + failOracleBackoff(s)}
 			tags = "nt,cas"
 		}
-		fcRef[q] = want
+		ref[q] = want
 		or := "ok"
 		if uint64(hit.Streak) != want[0] || rel(hit.RetryAfter) != want[1] {
-			or = fail("fail/record/wrong-generation", "question %d at %d: streak=%d retry=%d, expected streak=%d retry=%d", q, now, hit.Streak, rel(hit.RetryAfter), want[0], want[1])
+			or = fail("fail/"+op+"/wrong-generation", "name %d at %d: streak=%d retry=%d, expected streak=%d retry=%d", q, now, hit.Streak, rel(hit.RetryAfter), want[0], want[1])
 		}
 		return vlib.Res{Impl: fmt.Sprintf("streak=%d retry=%d len=%d", hit.Streak, rel(hit.RetryAfter), fc.Len()), Oracle: lenOr(or), Tags: tags}
-	case "reset":
+	case "rmatch", "purge":
 		if !need(a, 1) {
 			break
 		}
 		q := vlib.AtoU64(a[0])
-		got := fc.ResetQuestion(failKey(q))
-		_, had := fcRef[q]
-		delete(fcRef, q)
+		want := 0
+		var got int
+		if op == "rmatch" {
+			// a fresh useful response for name q: its exact history and the
+			// history of every ancestor zone (names 0..q) go
+			if _, had := fcRef[q]; had {
+				want++
+				delete(fcRef, q)
+			}
+			for z := uint64(0); z <= q; z++ {
+				if _, had := fcZRef[z]; had {
+					want++
+					delete(fcZRef, z)
+				}
+			}
+			got = fc.ResetMatching(failKey(q))
+		} else {
+			// operator purge of the question: its state and the zone state owned by the same name
+			if _, had := fcRef[q]; had {
+				want++
+				delete(fcRef, q)
+			}
+			if _, had := fcZRef[q]; had {
+				want++
+				delete(fcZRef, q)
+			}
+			got = fc.PurgeQuestion(failKey(q).Question)
+		}
+		or := "ok"
+		if got != want {
+			or = fail("fail/"+op+"/wrong-result", "name %d: %d states deleted, %d were recorded for it", q, got, want)
+		}
+		tags := ""
+		if want > 0 {
+			tags = "nt,cad"
+		}
+		return vlib.Res{Impl: fmt.Sprintf("removed=%d len=%d", got, fc.Len()), Oracle: lenOr(or), Tags: tags}
+	case "reset", "zreset":
+		if !need(a, 1) {
+			break
+		}
+		q := vlib.AtoU64(a[0])
+		ref := fcRef
+		var got bool
+		if op == "reset" {
+			got = fc.ResetQuestion(failKey(q))
+		} else {
+			ref = fcZRef
+			got = fc.ResetZone(failZone(q))
+		}
+		_, had := ref[q]
+		delete(ref, q)
 		or := "ok"
 		if got != had {
-			or = fail("fail/reset/wrong-result", "ResetQuestion(%d) = %v, state recorded = %v", q, got, had)
+			or = fail("fail/"+op+"/wrong-result", "reset of name %d = %v, state recorded = %v", q, got, had)
 		}
 		tags := ""
 		if had {
@@ -131,6 +207,14 @@ func execFail(op string, a []string) vlib.Res {
 		hit, ok := fc.Lookup(failKey(q))
 		want, had := fcRef[q]
 		active := had && now < want[1]
+		if !active {
+			// otherwise the closest active ancestor-zone state: names q, q-1, …, 0
+			for z := int64(q); z >= 0 && !active; z-- {
+				if w, ok := fcZRef[uint64(z)]; ok && now < w[1] {
+					want, active = w, true
+				}
+			}
+		}
 		or := "ok"
 		if ok != active || (ok && (uint64(hit.Streak) != want[0] || rel(hit.RetryAfter) != want[1])) {
 			or = fail("fail/lookup/wrong-result", "Lookup(%d) at %d: hit=%v, recorded active=%v", q, now, ok, active)
